@@ -71,8 +71,12 @@ func (m *Model) RunLexMode(s *Sink, rule string) {
 							if p.Name() == pname && i < len(c.Call.Args) {
 								if kc, ok := c.Call.Args[i].(*ssa.Const); ok {
 									res[tokenConstNames[kc.Int64()]] = true
+								} else if own, isPar := c.Call.Args[i].(*ssa.Parameter); isPar {
+									res["param:"+own.Name()] = true // handed down once more: resolved at this function's call sites
 								} else {
-									res["(computed code token)"] = true
+									for k := range m.tokenClasses(c.Call.Args[i], 0, map[ssa.Value]bool{}) {
+										res[k] = true
+									}
 								}
 							}
 						}
@@ -131,7 +135,7 @@ func (m *Model) RunLexMode(s *Sink, rule string) {
 			key := fmt.Sprintf("%s|%s(%s) builds code tokens only in code mode", fnKey(nt), canonFnName(sc), argConsts(c))
 			inCode := false
 			for _, f := range expandFacts(factsAt(b)) {
-				if fieldPathOf(f.Cond) == ".isHTML" && !f.Holds {
+				if m.isTextModeRead(f.Cond) && !f.Holds {
 					inCode = true
 				}
 			}
@@ -608,9 +612,10 @@ func (m *Model) RunDirMode(s *Sink, rule string) {
 		}
 		return -1
 	}
-	fChar, fHTML, fDir := fieldIdx("char"), fieldIdx("isHTML"), fieldIdx("isDirective")
-	if fChar < 0 || fHTML < 0 || fDir < 0 {
-		s.Undecided(rule, "lexer.Lexer fields", "-", "char / isHTML / isDirective not found")
+	fChar := fieldIdx("char")
+	mp, fresh, why := m.lexTextMode()
+	if fChar < 0 || mp == nil {
+		s.Undecided(rule, "lexer.Lexer fields", "-", "the current character / the text-mode state of the lexer were not found (%s)", why)
 		return
 	}
 	// which directives are written with parentheses is part of the language (lsp/metadata/en/*.md: @break, @continue, @end
@@ -638,7 +643,9 @@ func (m *Model) RunDirMode(s *Sink, rule string) {
 		tok := dirs[kw]
 		want := takes(kw)
 		for _, next := range []byte{'(', 'x'} {
-			lx := &iStruct{typ: lexT, fields: map[int]any{fChar: constant.MakeInt64('@'), fHTML: constant.MakeBool(true), fDir: constant.MakeBool(false)}}
+			lx := fresh.copyVal() // the state lexer.New leaves (text mode), standing on the '@' of the directive
+			lx.val = false
+			lx.fields[fChar] = constant.MakeInt64('@')
 			ip := &Interp{m: m, useGlobals: true}
 			ip.call = func(c *ssa.Call, args []any) (any, bool) {
 				if c.Call.StaticCallee() == rd {
@@ -650,7 +657,7 @@ func (m *Model) RunDirMode(s *Sink, rule string) {
 			ip.Run(dt, []any{lx})
 			key := fmt.Sprintf("%s|after %s followed by %q the mode matches what the parser reads", fnKey(dt), kw, string(next))
 			n++
-			hv, ok1 := lx.fields[fHTML].(constant.Value)
+			hv, ok1 := mp.eval(m, lx)
 			if ip.stuck != "" || !ok1 || hv.Kind() != constant.Bool {
 				s.Undecided(rule, key, m.Pos(dt.Pos()), "directiveToken could not be evaluated for this case (%s)", ip.stuck)
 				continue
@@ -669,4 +676,86 @@ func (m *Model) RunDirMode(s *Sink, rule string) {
 	if n < 20 {
 		s.Undecided(rule, "directive cases", "-", "expected at least 20 (directive, next character) cases, found %d", n)
 	}
+}
+
+// lexModePred: how the lexer tells text mode from code mode — the bool field isHTML, or (when the state is encoded
+// otherwise, e.g. as a flag word) the one pure niladic bool method of *Lexer that holds in the state lexer.New leaves.
+type lexModePred struct {
+	field  int
+	getter *ssa.Function
+}
+
+func (mp *lexModePred) eval(m *Model, lx *iStruct) (constant.Value, bool) {
+	if mp.getter == nil {
+		v, ok := lx.field(mp.field)
+		c, isC := v.(constant.Value)
+		return c, ok && isC
+	}
+	ip := &Interp{m: m, useGlobals: true}
+	res, ok := ip.Run(mp.getter, []any{lx})
+	c, isC := res.(constant.Value)
+	return c, ok && isC && ip.stuck == "" && !ip.dirty
+}
+
+// lexTextMode finds the text-mode predicate and the lexer state after construction.
+func (m *Model) lexTextMode() (*lexModePred, *iStruct, string) {
+	if m.lexModeDone {
+		return m.lexMode, m.lexFresh, m.lexModeWhy
+	}
+	m.lexModeDone = true
+	lexT := m.namedType("lexer", "Lexer")
+	newFn := m.PkgFunc("lexer", "New")
+	if lexT == nil || newFn == nil || len(newFn.Params) != 1 {
+		m.lexModeWhy = "lexer.Lexer / lexer.New not found"
+		return nil, nil, m.lexModeWhy
+	}
+	ip := &Interp{m: m, useGlobals: true}
+	res, _ := ip.Run(newFn, []any{constant.MakeString("x")})
+	fresh, ok := res.(*iStruct)
+	if !ok || fresh.typ != lexT {
+		m.lexModeWhy = "lexer.New could not be evaluated (" + ip.stuck + ")"
+		return nil, nil, m.lexModeWhy
+	}
+	m.lexFresh = fresh
+	st := lexT.Underlying().(*types.Struct)
+	for i := 0; i < st.NumFields(); i++ {
+		if canonFieldName(lexT, i, st.Field(i).Name()) == "isHTML" && isBoolT(st.Field(i).Type()) {
+			m.lexMode = &lexModePred{field: i}
+			return m.lexMode, fresh, ""
+		}
+	}
+	var cands []*ssa.Function
+	ms := m.Prog.MethodSets.MethodSet(types.NewPointer(lexT))
+	for i := 0; i < ms.Len(); i++ {
+		fn := m.Prog.MethodValue(ms.At(i))
+		if fn == nil || fn.Blocks == nil || len(fn.Params) != 1 || fn.Signature.Results().Len() != 1 || !isBoolT(fn.Signature.Results().At(0).Type()) {
+			continue
+		}
+		if sum := m.Effects().sums[fn]; sum == nil || len(sum.writes) > 0 {
+			continue
+		}
+		c, ok := (&lexModePred{getter: fn}).eval(m, fresh)
+		if ok && c.Kind() == constant.Bool && constant.BoolVal(c) {
+			cands = append(cands, fn)
+		}
+	}
+	if len(cands) != 1 {
+		m.lexModeWhy = fmt.Sprintf("no bool field isHTML and %d candidate text-mode predicates", len(cands))
+		return nil, fresh, m.lexModeWhy
+	}
+	m.lexMode = &lexModePred{getter: cands[0]}
+	return m.lexMode, fresh, ""
+}
+
+// isTextModeRead: v reads the text-mode state of the lexer (the field, or a call of the predicate method).
+func (m *Model) isTextModeRead(v ssa.Value) bool {
+	if fieldPathOf(v) == ".isHTML" {
+		return true
+	}
+	mp, _, _ := m.lexTextMode()
+	if mp == nil || mp.getter == nil {
+		return false
+	}
+	c, ok := v.(*ssa.Call)
+	return ok && c.Call.StaticCallee() == mp.getter
 }
